@@ -52,6 +52,9 @@ var (
 
 func seq(tier string, sh *vkit.Shard, p *vkit.Part) {
 	for i, f := range parts {
+		if only := os.Getenv("VERIF_C11_PART"); only != "" && only != fmt.Sprint(i) {
+			continue // development aid: run one sequential space only (0 parser, 1 resp, 2 ws)
+		}
 		t0 := time.Now()
 		f(tier, sh, p)
 		if os.Getenv("VERIF_TIMING") != "" {
